@@ -123,6 +123,19 @@ Additions for scoring/gaussian_dbal.py (GaussianDBALScorer.score and the dbal_fa
                       element from the left (res_map_all).  A subscript of anything else, a slice or a tuple index stays refused
                       (unless a cfg["prims"] pattern gives it a meaning).
   truth value of a Z  `if n` / `if not n` with n an int (e.g. `if not len(plates)`): n is not zero, `negb (n =? 0)`
+Additions for the prediction code (common.copy_array_with_control_treatments_set_to_zero, models/sparse_combo.py, models/main.py):
+  typed operators     there is no float / array arithmetic in the structural translation (BinOp is integer-only); the numpy
+                      operators are PRIMS with hole types, overloaded by shape under cfg["overload"] (`__a + __b` at
+                      vec/vec, mat/mat, float/vec ...): an operand combination no prim is declared for is refused.  Float
+                      literals are prims too (`0.01`), any other float constant is refused.
+  `T1 | T2`           in cfg["vars"]: a local the function re-uses at several types (`result` = one sample's vector inside a loop,
+                      the stacked matrix after it).  Only a plain assignment `x = e` may bind such a variable, at the alternative
+                      that IS the type of e (no coercion); every other binder (loop target, state call, `with`, tuple target)
+                      compares the declared type as a whole and so refuses it.  Reads use the type of the binding in scope.
+  [f for a, b in L]   a comprehension whose target is a tuple of names, over a list of tuples of that arity (e.g. a prim for
+                      `zip(...)`), without a condition: map over a tuple pattern; res_map_all when f may raise
+  cfg["assign_effects"]  a template starting with `!` denotes a `result state` (the store may raise, e.g. numpy's
+                      `a[mask, ...] = 0.0` with a mask of the wrong length): `dor state <- template;`
 """
 import ast
 
@@ -134,6 +147,8 @@ class Unsupported(Exception):
 # ---------------------------------------------------------------- types
 def parse_type(s):
     s = s.strip()
+    if " | " in s and len(split_top(s, "|")) > 1:      # `T1 | T2`: a variable the function re-uses at several types
+        return ("alt", tuple(parse_type(x) for x in split_top(s, "|")))
     if s.startswith("opt "):
         return ("opt", parse_type(s[4:]))
     if s.startswith("list "):
@@ -363,6 +378,8 @@ class Tr:
             return "(fold_left (fun %s %s => dict_set %s %s %s) %s [])" % (d, g.target.id, d, kk, vv, l), ("dictof", vt)
         if isinstance(e, ast.ListComp):
             # [f(x) for x in L if P]  ->  map (fun x => f) (filter (fun x => P) L); neither f nor P may raise
+            if len(e.generators) == 1 and not e.generators[0].is_async and self.tuple_comp_target(e.generators[0].target):
+                return self.tuple_comp(e, env, hoist)
             if len(e.generators) != 1 or e.generators[0].is_async or not isinstance(e.generators[0].target, ast.Name):
                 raise Unsupported("comprehension other than [f(x) for x in L if P]: " + ast.unparse(e))
             g = e.generators[0]
@@ -439,6 +456,34 @@ class Tr:
             hoist.append((n, "dict_get %s %s" % (d, self.need(kk, kt, ("Z",), hoist))))
             return n, dt[1]
         raise Unsupported("expression: " + ast.unparse(e))
+
+    def tuple_comp_target(self, t):
+        return isinstance(t, ast.Tuple) and len(t.elts) >= 2 and all(isinstance(x, ast.Name) for x in t.elts)
+
+    def tuple_comp(self, e, env, hoist):
+        """[f(a, b, ..) for a, b, .. in L] with L a list of tuples of that arity and no condition: map / res_map_all
+        (element by element from the left, the first exception aborts) over a tuple pattern"""
+        g = e.generators[0]
+        if g.ifs:
+            raise Unsupported("comprehension with a tuple target and a condition: " + ast.unparse(e))
+        l, lt = self.expr(g.iter, env, hoist)
+        names = [x.id for x in g.target.elts]
+        if lt[0] != "list" or lt[1][0] != "tuple" or len(lt[1][1]) != len(names) or len(set(names)) != len(names):
+            raise Unsupported("comprehension with a tuple target over a %s" % (lt,))
+        env2 = dict(env)
+        for n, t in zip(names, lt[1][1]):
+            env2[n] = t
+        inner = []
+        f, ft = self.expr(e.elt, env2, inner)
+        pat = "'(" + ", ".join(names) + ")"
+        if not inner:
+            return "(map (fun %s => %s) %s)" % (pat, f, l), ("list", ft)
+        if self.M["type"] != "result":
+            raise Unsupported("comprehension element that may raise under a non-default monad: " + ast.unparse(e))
+        n = self.new("l")
+        body = "".join("dor %s <- %s; " % nt for nt in inner) + "Ok " + f
+        hoist.append((n, "res_map_all (fun %s => %s) %s" % (pat, body, l)))
+        return n, ("list", ft)
 
     def kwcall(self, e, env, hoist):
         """cfg["kwcalls"]: F(k1=e1, ..., kn=en) -> the callee's template over its full parameter list; a parameter the call
@@ -748,6 +793,8 @@ class Tr:
                         raise Unsupported("assignment effect on an unbound state variable: " + var)
                     args = {kk[2:]: self.expr(v, env, hoist)[0] for kk, v in binds.items()}
                     args["state"] = var
+                    if tmpl.startswith("!"):   # an assignment effect that may raise: the template denotes a `result state`
+                        return self.bind_hoist(hoist, "%s%s %s <- %s;\n" % (ind, self.M["bind"], var, tmpl[1:].format(**args)), ind) + self.block(rest, env, k, ind)
                     return self.bind_hoist(hoist, "%slet %s := %s in\n" % (ind, var, tmpl.format(**args)), ind) + self.block(rest, env, k, ind)
             if len(st.targets) != 1:
                 raise Unsupported("multiple assignment: " + ast.unparse(st))
@@ -811,6 +858,10 @@ class Tr:
             if isinstance(tgt, ast.Name):
                 ty = self.var_type(tgt.id)
                 v, vt = self.expr(st.value, env, hoist)
+                if ty[0] == "alt":     # declared `T1 | T2`: this assignment binds the variable at the alternative the value has
+                    if vt not in ty[1]:
+                        raise Unsupported("assignment of a %s to %s, declared %s" % (vt, tgt.id, ty))
+                    ty = vt
                 v = self.need(v, vt, ty, hoist)
                 env2 = dict(env)
                 env2[tgt.id] = ty
